@@ -301,3 +301,35 @@ class Prover:
             if "unsat" in vs and "sat" not in vs:
                 return "unsat"
         return str(r)
+
+
+def purify(terms):
+    """replace every non-constant division a/b by a fresh variable q with the side condition q*b == a.
+
+    Returns (new_terms, side_conditions).  Sound under the premise b != 0 that the caller must have on the path (real
+    division by zero is unconstrained in SMT-LIB; the targets only divide by norms/sums the path keeps non-zero).
+    Direct encodings with `/` were `unknown` in every solver for the direction-assignment lemma; the purified ones are
+    decided in a second (DESIGN section 2).
+    """
+    cache = {}
+    side = []
+    counter = [0]
+
+    def go(t):
+        k = t.get_id()
+        if k in cache:
+            return cache[k]
+        if z3.is_app(t) and t.num_args() > 0:
+            ch = [go(c) for c in t.children()]
+            if t.decl().kind() == z3.Z3_OP_DIV and not z3.is_rational_value(z3.simplify(ch[1])):
+                counter[0] += 1
+                q = z3.Real(f"quot!{counter[0]}")
+                side.append(q * ch[1] == ch[0])
+                r = q
+            else:
+                r = t.decl()(*ch) if any(c.get_id() != o.get_id() for c, o in zip(ch, t.children())) else t
+        else:
+            r = t
+        cache[k] = r
+        return r
+    return [go(t) for t in terms], side
